@@ -308,7 +308,10 @@ class Engine:
         trait = None
         tyname = None
         m = re.match(r"^<(.+) as ([^>]+?)>::([A-Za-z_][A-Za-z0-9_]*)(::<.*>)?$", c)
+        tyqual = []
         if m:
+            tyfull = re.sub(r"<.*$", "", m.group(1).strip().lstrip("&").replace("mut ", ""))
+            tyqual = tyfull.split("::")[:-1]
             tyname = re.sub(r"<.*$", "", m.group(1).strip().lstrip("&").replace("mut ", "")).split("::")[-1]
             trait = re.sub(r"<.*$", "", m.group(2)).split("::")[-1]
             method = m.group(3)
@@ -352,6 +355,11 @@ class Engine:
             typed = [n for n in out if self.impl_info(n) is not None]
             if typed:
                 out = typed
+        if len(out) > 1 and (tyqual or modprefix):
+            q = (tyqual or modprefix)[-1]
+            byfile = [n for n in out if re.search(r"<impl at [^>]*\b" + re.escape(q) + r"(/mod)?\.rs:", n)]
+            if byfile:
+                out = byfile
         if len(out) == 1:
             return out[0]
         if len(out) > 1:
